@@ -4,16 +4,19 @@
 seeded/<PID>-<K+2>/meta.json, then run tools/seedtest.py on the current tree."""
 import json, os, re, subprocess, sys
 run_n, base = sys.argv[1], sys.argv[2]
+offset = int(os.environ.get('SEED_OFFSET', '2'))
 pairs = list(zip(sys.argv[3::2], sys.argv[4::2]))
-rj = json.load(open('/root/.vp/runs/%s/run.json' % run_n))
 snap = {}
-for l in open('/root/.vp/runs/%s/log' % run_n, errors='replace'):
-  m = re.match(r'SNAP (\S+) (\d+) rc=(\d+) (\d+)s (.*?) :: (.*)', l)
-  if m:
-    snap[(m.group(1), m.group(2))] = dict(rc=int(m.group(3)), summary=m.group(5),
-                                          cex=m.group(6).strip())
+for rn in run_n.split(','):
+  rj = json.load(open('/root/.vp/runs/%s/run.json' % rn))
+  for l in open('/root/.vp/runs/%s/log' % rn, errors='replace'):
+    m = re.match(r'SNAP (\S+) (\d+) rc=(\d+) (\d+)s (.*?) :: (.*)', l)
+    if m:
+      snap[(m.group(1), m.group(2))] = dict(rc=int(m.group(3)), summary=m.group(5),
+                                            cex=m.group(6).strip(), run=rn,
+                                            commit=rj['verif_commit'][:7])
 for pid, k in pairs:
-  outk = str(int(k) + 2)
+  outk = str(int(k) + offset)
   out = '/verif/seeded/%s-%s' % (pid, outk)
   os.makedirs(out, exist_ok=True)
   mp = os.path.join(out, 'meta.json')
@@ -22,7 +25,7 @@ for pid, k in pairs:
     json.dump(dict(property=pid, k=outk, history=[dict(
         detected=s['rc'] == 1, summary=[s['summary']],
         note='first run, on the frozen /verif snapshot %s (vp run %s), before any '
-             'strengthening prompted by this change' % (rj['verif_commit'][:7], run_n),
+             'strengthening prompted by this change' % (s['commit'], s['run']),
         counterexample=s['cex'][:200])]), open(mp, 'w'), indent=1)
   wt = '%s/%s' % (base, pid)
   if not os.path.isdir(wt):
